@@ -63,8 +63,10 @@ func (a Any) ReferenceOrigins(ctx context.Context) reference.Origins {
 			Elems: make([]schema.Constraint, len(elemTypes)),
 		}
 		for i, elemType := range elemTypes {
-			cons.Elems[i] = schema.LiteralType{
-				Type: elemType,
+			// elements of an "any expression" tuple
+			// may contain references, function calls etc.
+			cons.Elems[i] = schema.AnyExpression{
+				OfType: elemType,
 			}
 		}
 
@@ -105,7 +107,7 @@ func (a Any) ReferenceOrigins(ctx context.Context) reference.Origins {
 			expr:    a.expr,
 			pathCtx: a.pathCtx,
 			cons: schema.Object{
-				Attributes:            ctyObjectToObjectAttributes(typ),
+				Attributes:            ctyObjectToAnyExprObjectAttributes(typ),
 				AllowInterpolatedKeys: true,
 			},
 		}
@@ -113,6 +115,19 @@ func (a Any) ReferenceOrigins(ctx context.Context) reference.Origins {
 	}
 
 	return a.refOriginsForNonComplexExpr(ctx)
+}
+
+// ctyObjectToAnyExprObjectAttributes converts the given object type
+// to object attributes where each value may be any expression
+// (including references) of the attribute's type.
+func ctyObjectToAnyExprObjectAttributes(objType cty.Type) schema.ObjectAttributes {
+	objAttributes := ctyObjectToObjectAttributes(objType)
+	for name, attrType := range objType.AttributeTypes() {
+		objAttributes[name].Constraint = schema.AnyExpression{
+			OfType: attrType,
+		}
+	}
+	return objAttributes
 }
 
 func (a Any) refOriginsForNonComplexExpr(ctx context.Context) reference.Origins {
